@@ -125,7 +125,7 @@ def run_check(prop: str, fn: Callable[[Ctx], None], root: str, tier: str, seed: 
                 raise AnalysisError(r, prop, f'only {counts[r]} instance(s) found, floor is {floor} '
                                              f'(vanished anchor or unrecognised idiom)')
         st = None
-        if selftest is not None and tier == 'thorough':
+        if selftest is not None and tier == 'thorough' and not has_failing:
             st = selftest(ctx)
     except AnalysisError as e:
         print(f'ANALYSIS-ERROR property={prop} {e}', file=out)
